@@ -79,6 +79,22 @@ def _density_case(case):
                           "tags": {"r": r}})
         if want > 0:
             nontriv.append("%s|r|%r" % (case["model"], r))
+    # the same radius given with an integer type (Python int, integer array, list of ints) is the same radius
+    ints = [int(r) for r in radii if float(r).is_integer()]
+    want = [ex.density(float(r), shells, R) for r in ints]
+    for label, arg in (("int64 array", np.array(ints, dtype=np.int64)), ("list of ints", list(ints))):
+        n += 1
+        got = np.asarray(m.density(arg), dtype=float)
+        if got.shape != (len(ints),) or not np.all(np.abs(got - np.array(want)) <= 1e-12 * np.maximum(1.0, np.abs(want))):
+            fails.append({"check": "density-int-input", "what": "%s density(%s %r) = %r, reference profile %r"
+                                                                % (case["model"], label, ints, got.tolist(), want),
+                          "tags": {"group": "density-int-input", "input": label}})
+    for r, w in zip(ints, want):
+        n += 1
+        got = m.density(r)
+        if np.ndim(got) != 0 or not abs(float(got) - w) <= 1e-12 * max(1.0, abs(w)):
+            fails.append({"check": "density-int-input", "what": "%s density(int %d) = %r, reference profile %r" % (case["model"], r, got, w),
+                          "tags": {"group": "density-int-input", "input": "int", "r": r}})
     return {"n": n, "nontrivial": nontriv, "fails": fails, "sample": {"model": case["model"], "radii": radii[:8]}}
 
 
